@@ -38,7 +38,7 @@ type Unit struct {
 	volatile        map[*types.Var]bool
 	loopOrd         int
 	localAlign      map[int]int
-	counted         map[string]int // callee texts named by called(...) in this unit's contract -> ghost counter id
+	counted         map[string]int     // callee texts named by called(...) in this unit's contract -> ghost counter id
 	forIdxVars      map[int]*types.Var // loop ordinal -> counter of a `for i := 0; cond; i++` loop (stands in for rangeidxN)
 	loopExec        []int              // static source index of the loop statement per executed loop (-1: a loop of an inlined callee)
 	loopStatic      []ast.Stmt
@@ -84,7 +84,8 @@ type Unit struct {
 	bodyPos         token.Pos
 	loopsSeen       map[int]bool
 	funcLits        []*ast.FuncLit
-	litGroup        bool // obligations emitted now belong to an escaping function literal (group prefix "lit:")
+	litChecked      map[int]bool // literals whose `lit K ensures` clauses produced obligations
+	litGroup        bool         // obligations emitted now belong to an escaping function literal (group prefix "lit:")
 	rangeVars       map[int]*types.Var
 	visitedVars     map[int]*types.Var
 	inlineLit       map[*ast.FuncLit]bool
